@@ -367,7 +367,11 @@ def _run(prop, tier, seed, n_override=None):
                             samples.append(rec["sample"])
     except cf.process.BrokenProcessPool:
         print(f"HARNESS-ERROR property={prop}: a worker died (timeout {batch_timeout}s, memory limit, or crash)")
-        return 2
+        if first_violation is None:
+            return 2
+        # a violation had already been found and recorded: it is minimised, confirmed in a fresh interpreter and
+        # reported below; the dead worker (typically another run hitting the same defect, e.g. a hang) is noted only
+        print("note: continuing with the violation found before the worker died")
 
     wall = time.time() - t_start
     exit_code = 0
